@@ -154,36 +154,38 @@ _cache = {}
 
 
 def base_packets():
-    """{kind: wire} for every kind of valid packet (built with the library's own encoders + hand-made envelopes)"""
+    """{kind: wire} for every kind of valid packet. Every wire is written here from the packet format (pktcommon's
+    writers) - not with the library's encoders: these are the INPUTS of the receive pipeline under judgement, and they
+    have to exist whatever state make_interest / make_data / Name.from_str / Component.from_bytes are in."""
     if 'b' in _cache:
         return _cache['b']
-    from ndn import encoding as enc
-    from ndn.encoding import ndnlp_v2 as lp
-    from ndn.security import DigestSha256Signer
+    import pktcommon as K
+    U = K.uri_to_comps
+    dg = {'type': 0}
     P = {}
-    P['int'] = bytes(enc.make_interest('/a/b', enc.InterestParam(nonce=0x01020304, lifetime=4000)))
-    P['int-cbp'] = bytes(enc.make_interest('/a', enc.InterestParam(nonce=7, can_be_prefix=True, must_be_fresh=True, hop_limit=3)))
-    P['int-h'] = bytes(enc.make_interest('/h/1/q', enc.InterestParam(nonce=9)))
-    P['int-signed'] = bytes(enc.make_interest('/a/b', enc.InterestParam(nonce=5), b'pp', signer=DigestSha256Signer(for_interest=True)))
-    P['int-param'] = bytes(enc.make_interest('/h/1', enc.InterestParam(nonce=6), b'xyz'))
+    P['int'] = K.build_interest(U('/a/b'), nonce=0x01020304, lifetime=4000)
+    P['int-cbp'] = K.build_interest(U('/a'), can_be_prefix=True, must_be_fresh=True, nonce=7, hop_limit=3)
+    P['int-h'] = K.build_interest(U('/h/1/q'), nonce=9)
+    P['int-signed'] = K.build_interest(U('/a/b'), nonce=5, app=b'pp',
+                                       sig={'type': 0, 'nonce': 0xa43c68d4992e1fc5, 'time': 0x1a0d546c976})
+    P['int-param'] = K.build_interest(U('/h/1'), nonce=6, app=b'xyz')
     for n in NAMES:
-        P['data' + n] = bytes(enc.make_data(n, enc.MetaInfo(freshness_period=10), b'C' + n.encode(), signer=DigestSha256Signer()))
-    P['data-long'] = bytes(enc.make_data('/a/b/c/d', enc.MetaInfo(), b'z' * 300, signer=DigestSha256Signer()))
+        P['data' + n] = K.build_data(U(n), {'content_type': 0, 'freshness_period': 10}, b'C' + n.encode(), dg)
+    P['data-long'] = K.build_data(U('/a/b/c/d'), {'content_type': 0}, b'z' * 300, dg)
     # names whose printing is hard: a typed-number component far longer than a number (1800 bytes: beyond CPython's
     # 4300-digit int-to-str limit; `params_sha256_checker` prints the name eagerly for its log line - fixed in /repo:
     # the ValueError of Component.to_str used to escape the receive pipeline), and of widths 3 and 9
     for tag, val in (('seg1800', b'\x01' * 1800), ('seg3', b'\x00\x00\x01'), ('seg9', b'\x01' * 9)):
-        longn = enc.Name.from_str('/h/1') + [enc.Component.from_bytes(val, 50)]
-        P['int-param-' + tag] = bytes(enc.make_interest(longn, enc.InterestParam(nonce=6), b'xyz'))
-        P['int-' + tag] = bytes(enc.make_interest(longn, enc.InterestParam(nonce=6)))
-        P['data-' + tag] = bytes(enc.make_data(enc.Name.from_str('/a/b') + [enc.Component.from_bytes(val, 54)], enc.MetaInfo(), b'v',
-                                              signer=DigestSha256Signer()))
-    P['nack-seg1800'] = bytes(lp.make_network_nack(P['int-seg1800'], 150))
+        longn = U('/h/1') + [K.gen_comp(val, 50)]
+        P['int-param-' + tag] = K.build_interest(longn, nonce=6, app=b'xyz')
+        P['int-' + tag] = K.build_interest(longn, nonce=6)
+        P['data-' + tag] = K.build_data(U('/a/b') + [K.gen_comp(val, 54)], {'content_type': 0}, b'v', dg)
+    P['nack-seg1800'] = K.build_nack(P['int-seg1800'], 150)
     P['data-d0'] = data_d0()
-    P['nack'] = bytes(lp.make_network_nack(P['int'], 150))
-    P['nack-cbp'] = bytes(lp.make_network_nack(P['int-cbp'], 50))
-    P['nack-x'] = bytes(lp.make_network_nack(bytes(enc.make_interest('/x', enc.InterestParam(nonce=1))), 100))
-    P['nack-big'] = bytes(lp.make_network_nack(P['int'], 2 ** 64 - 1))
+    P['nack'] = K.build_nack(P['int'], 150)
+    P['nack-cbp'] = K.build_nack(P['int-cbp'], 50)
+    P['nack-x'] = K.build_nack(K.build_interest(U('/x'), nonce=1), 100)
+    P['nack-big'] = K.build_nack(P['int'], 2 ** 64 - 1)
     P['lp-token-int'] = tlv(LP, tlv(0x62, b'\x01\x02\x03\x04') + tlv(0x50, P['int']))
     P['lp-token-int-h'] = tlv(LP, tlv(0x62, b'\xaa' * 8) + tlv(0x340, b'\x01') + tlv(0x50, P['int-h']))
     P['lp-data'] = tlv(LP, tlv(0x32c, b'\x01\x2c') + tlv(0x334, tlv(0x335, b'\x01')) + tlv(0x50, P['data/a/b']))
@@ -202,10 +204,9 @@ def base_packets():
 
 
 def data_d0():
-    from ndn import encoding as enc
-    from ndn.security import DigestSha256Signer
+    import pktcommon as K
     if 'd0' not in _cache:
-        _cache['d0'] = bytes(enc.make_data('/a/b', enc.MetaInfo(), b'D0', signer=DigestSha256Signer()))
+        _cache['d0'] = K.build_data(K.uri_to_comps('/a/b'), {'content_type': 0}, b'D0', {'type': 0})
     return _cache['d0']
 
 
